@@ -298,6 +298,7 @@ func c36distinct(c *kit.Ctx, m *c36model, s *crypto.OneTimeSignatureSecrets) {
 		nb, no = len(s.Batches), len(s.Offsets)
 	}
 	c.Distinct(fmt.Sprintf("%s|%d|%d|%s|%d|%d", m.path, m.dil, uint64(m.first)%m.dil, class, nb, no))
+	c.Sample(map[string]any{"path": m.path, "key_dilution": m.dil, "first_valid": uint64(m.first), "last_valid": uint64(m.last), "advanced_to": uint64(m.wm), "class": class, "remaining_batches": nb, "remaining_offsets": no})
 }
 
 func c36partkeyDB(c *kit.Ctx, r *kit.Rand, proto config.ConsensusParams, file string, first, last basics.Round, dil uint64, seq []basics.Round) {
